@@ -439,7 +439,7 @@ example : (do let root ← runRows {} exUnsafeFields exUnsafeRows; pure (decRoot
 `Spec.WF f a = Spec.WFS f a ∧ Spec.typeOf a = f.dataType`: `typeOf` is marrow's `Array::data_type`, written over the
 physical array alone.  `C03_wfS'` above is the structural half (`WFS`, the former `WF`, whose `.union` / `.map` arms do not
 look at the union mode and at the nullability / metadata of the entries field).  The type half: `build_builder` refuses
-sparse unions and nullable Map entries (repo fixes d258f49, 01474fc — `Lemmas.C03.newRoot_strict`), and for such a type a
+sparse unions and nullable Map entries (repo fixes c63d82e, 25f1351 — `Lemmas.C03.newRoot_strict`), and for such a type a
 structurally valid array has exactly that type (`Lemmas.C03.wf_typeOf`, arbitrary arrays). -/
 
 /-- **C03 (`C03_wf'` for the tightened `Spec.WF`).**  Every array `to_marrow` returns is a structurally valid array WHOSE
